@@ -113,6 +113,44 @@ func (g *G) safeField() Frag {
 }
 
 func (g *G) atomExpr() E {
+	if g.longUsed && g.longForm != "atom" && g.pick("atom.small-composite", 8) > 0 {
+		// elements of a very long list: one dominant small composite form, so that hundreds of tuples / parenthesised
+		// expressions / calls / array and struct literals occur in one parse
+		x, y := g.simpleAtom(), g.simpleAtom()
+		form := g.longForm
+		if form == "mixed" {
+			form = g.choose("long.element", "tuple", "paren", "call", "array", "struct", "nested-tuple", "unary", "binary")
+		}
+		switch form {
+		case "tuple":
+			return E{Frag: cat(p("("), x, p(","), y, p(")"))}
+		case "paren":
+			return E{Frag: cat(p("("), x, p(")"))}
+		case "call":
+			return E{Frag: cat(g.plain(), pl("("), x, p(")"))}
+		case "array":
+			return E{Frag: cat(p("["), x, p(","), y, p("]"))}
+		case "struct":
+			return E{Frag: cat(k("STRUCT"), pl("("), x, p(")"))}
+		case "nested-tuple":
+			return E{Frag: cat(p("("), x, p(","), p("("), y, p(")"), p(")"))}
+		case "unary":
+			return E{Frag: cat(p("-"), x), Level: lvUnary}
+		default:
+			return E{Frag: cat(x, p("+"), y), Level: lvAdd}
+		}
+	}
+	return g.plainAtom()
+}
+
+func (g *G) simpleAtom() Frag {
+	if g.flip("long.atom.int") {
+		return g.intLit()
+	}
+	return g.plain()
+}
+
+func (g *G) plainAtom() E {
 	switch g.pick("atom", 6) {
 	case 0:
 		return E{Frag: g.intLit(), endsNum: true}
@@ -353,8 +391,19 @@ func (g *G) primary() E {
 
 func (g *G) typePath() Frag {
 	n := g.count("typepath", 1, 3)
-	f := g.plain()
+	var f Frag
+	switch rapid.IntRange(0, 15).Draw(g.T, g.label("typepath.first")) {
+	case 0:
+		g.tag("typepath.unicode-confusable")
+		f = both(Lex{K: ID, V: confusableNames[rapid.IntRange(0, len(confusableNames)-1).Draw(g.T, g.label("typepath.confusable"))]})
+	default:
+		f = g.plain()
+	}
 	for i := 1; i < n; i++ {
+		if rapid.IntRange(0, 3).Draw(g.T, g.label("typepath.afterdot")) == 0 {
+			f = cat(f, pl("."), g.afterDot())
+			continue
+		}
 		x := g.plain()
 		x.W[0].Loose, x.C[0].Loose = true, true
 		f = cat(f, pl("."), x)
